@@ -648,3 +648,28 @@ impl Frame {
         }
     }
 }
+
+#[cfg(jxl_oxide_verif)]
+impl Frame {
+    /// Verification hook: a frame with the given header and TOC and no section data loaded yet
+    /// (what `Frame::parse` returns, without running the parsers again).
+    pub fn verif_from_parts(
+        image_header: Arc<ImageHeader>,
+        header: FrameHeader,
+        toc: Toc,
+        tracker: Option<AllocTracker>,
+    ) -> Self {
+        let data = toc.iter_bitstream_order().map(GroupData::from).collect();
+        Self {
+            pool: JxlThreadPool::none(),
+            tracker,
+            image_header,
+            header,
+            toc,
+            data,
+            all_group_offsets: AllGroupOffsets::default(),
+            reading_data_index: 0,
+            pass_shifts: BTreeMap::new(),
+        }
+    }
+}
